@@ -204,6 +204,18 @@ func checkC04(c *Checker) {
 	}
 	c.rule("C04-L", "the reported per-channel length is ceil(Len/channels) and the total capacity is cap(data)", 2)
 	accessorForms(c, "C04-L", "Length", "Cap")
+	// views that "see the appended values" are separate headers over the same storage: Slice must return a fresh
+	// header that shares the receiver's storage (C02-R1/R2), never the receiver itself
+	c.rule("C04-V", "premise: Slice yields a fresh header over the receiver's storage (C02-R1, C02-R2)", 4)
+	sub := newChecker(c.Prop, c.Tier, c.Seed, c.verifDir)
+	sub.W = c.W
+	sub.sums = c.sums
+	checkC02(sub)
+	for _, o := range sub.Obligs {
+		if o.Rule == "C02-R1" || o.Rule == "C02-R2" {
+			c.add("C04-V", o.Rule+"/"+o.Instance, o.Pos, o.Verdict, o.Detail, o.Witness)
+		}
+	}
 }
 
 func checkC14(c *Checker) {
@@ -375,6 +387,18 @@ func checkC13(c *Checker) {
 		}
 	}
 	accessorForms(c, "C13-A3")
+	// the pool's refill path is the other way a buffer is allocated: it must be Alloc of the stored allocator,
+	// fresh on every call (C10-P3)
+	c.rule("C13-A4", "the pool's New path returns Alloc[T](stored allocator), a fresh buffer per call (C10-P3)", 2)
+	sub := newChecker(c.Prop, c.Tier, c.Seed, c.verifDir)
+	sub.W = c.W
+	sub.sums = c.sums
+	poolObligations(sub, "C10-P")
+	for _, o := range sub.Obligs {
+		if o.Rule == "C10-P3" {
+			c.add("C13-A4", o.Rule+"/"+o.Instance, o.Pos, o.Verdict, o.Detail, o.Witness)
+		}
+	}
 }
 
 func (c *Checker) typeByName(name string) types.Type {
